@@ -732,7 +732,8 @@ class ProgGen:
             if dom and any(self._uses(ch.stmts + [blk], {w["id"] for w in dom})):
                 pass
         st = {"s": "cfg", "id": self.nid(), "args": [self.take(rg, w) for w in args], "atys": atys,
-              "shape": shape, "blocks": blocks, "mode": mode, "via": r.choice(["successor", "block"])}
+              "shape": shape, "blocks": blocks, "mode": mode, "via": r.choice(["successor", "block"]),
+              "out_tys": cfg_outs}
         outs = [self.new_out(rg, t) for t in cfg_outs]
         st["outs"] = [o["id"] for o in outs]
         self.emit(rg, st)
